@@ -202,11 +202,25 @@ class ConstEval:
       if fn == "isinstance" and len(args) == 2 and not e.keywords:
         types = {"bool": bool, "int": int, "str": str, "float": float, "bytes": bytes, "list": list, "tuple": tuple, "dict": dict}
         spec = args[1].elts if isinstance(args[1], ast.Tuple) else [args[1]]
-        if all(isinstance(t, ast.Name) and t.id in types for t in spec):
+        if all((isinstance(t, ast.Name) and t.id in types) or ast.unparse(t) in ("numbers.Number", "numbers.Real", "numbers.Rational", "Fraction") for t in spec):
           v = self._ev(m, args[0], cls, env)
-          if isinstance(v, (Sym, EnumMember)):
+          if isinstance(v, EnumMember):
+            return False          # a member of one of the package's (plain) Enum classes is not an instance of a builtin / numeric type
+          if isinstance(v, Sym):
             raise NotConst("symbolic isinstance")
+          if not all(isinstance(t, ast.Name) and t.id in types for t in spec):
+            import numbers as _numbers
+            extra = {"numbers.Number": _numbers.Number, "numbers.Real": _numbers.Real, "numbers.Rational": _numbers.Rational, "Fraction": Fraction}
+            return isinstance(v, tuple(types[t.id] if isinstance(t, ast.Name) and t.id in types else extra[ast.unparse(t)] for t in spec))
           return isinstance(v, tuple(types[t.id] for t in spec))
+        # classes of the package: decided for enum members (their class is known) and for plain constants (never an instance)
+        rs = [self.ix.resolve(m, t, cls=cls) for t in spec]
+        if all(isinstance(r_, ClassInfo) for r_ in rs):
+          v = self._ev(m, args[0], cls, env)
+          if isinstance(v, EnumMember):
+            return any(r_.qualname == v.cls for r_ in rs)
+          if v is None or isinstance(v, (bool, int, float, str, Fraction, tuple, list, dict)):
+            return False
       if fn in ("floor", "ceil", "math.floor", "math.ceil") and len(args) == 1 and not e.keywords:
         import math
         v = self._ev(m, args[0], cls, env)
